@@ -25,8 +25,9 @@ EXTENDS Draft6
 (* Switches for behaviour that a repair flips (DESIGN Appendix C(4)).      *)
 (* They describe the tree as it is NOW.                                    *)
 (***************************************************************************)
-DeepBool            == FALSE  \* replace_bool recurses into lists and dicts
-PlaceholderBySource == FALSE  \* Properties.__call__ keys placeholders by source
+DeepBool            == TRUE   \* replace_bool recurses into lists and dicts
+PlaceholderBySource == TRUE   \* Properties.__call__ keys placeholders by source
+CompositeKeepsDefault == TRUE \* Properties.__getitem__: AllOf(prop, patterns) keeps prop's default
 
 EmptyKw == [x \in {} |-> TRUE]
 Mk(cls, kw)        == [cls |-> cls, kw |-> kw, elems |-> <<>>, name |-> ""]
@@ -135,7 +136,10 @@ PropsGetItem(e, key) ==
          name |-> key]
      ELSE LET p == props[CHOOSE i \in decl : \A j \in decl : j <= i]   \* last one wins
           IN IF Len(pats) = 0 THEN [elem |-> p.elem, name |-> p.attr]
-             ELSE [elem |-> MkComp("AllOf", <<p.elem>> \o pats, EmptyKw), name |-> p.attr]
+             ELSE [elem |-> MkComp("AllOf", <<p.elem>> \o pats,
+                                   IF CompositeKeepsDefault /\ K(p.elem, "default")
+                                   THEN [default |-> p.elem.kw.default] ELSE EmptyKw),
+                   name |-> p.attr]
 
 PropsContains(e, key) == PropsGetItem(e, key).elem.cls # "Nothing"
    \* `self[key].element != Nothing()`: only a Nothing instance equals Nothing()
